@@ -167,10 +167,11 @@ static int sort_op(const char *op) { /* returns 1 if handled */
     if (h_nw < 2 || !p_n(h_w[1], &nn)) { puts("bad-op"); return 1; }
     a = p_list(2, 0, &n);
     if (!a) { puts("bad-op"); return 1; }
-    /* n == 0 is refused: ref_sort_same(0, ..) reads unique0[0] of a zero-length allocation */
-    if (nn == 0 || (long long)n != 2 * nn) { free(a); puts("bad-op"); return 1; }
-    l0 = (REF_INT *)malloc(sizeof(REF_INT) * (size_t)nn);
-    l1 = (REF_INT *)malloc(sizeof(REF_INT) * (size_t)nn);
+    /* n == 0 is legitimate since the repair of ref_sort_unique_int's empty-list count (before it ref_sort_same(0, ..)
+       read unique0[0] of a zero-length allocation: ASan reports that if it ever returns) */
+    if ((long long)n != 2 * nn) { free(a); puts("bad-op"); return 1; }
+    l0 = (REF_INT *)malloc(sizeof(REF_INT) * (size_t)(nn + 1));
+    l1 = (REF_INT *)malloc(sizeof(REF_INT) * (size_t)(nn + 1));
     for (k = 0; k < nn; k++) { l0[k] = (REF_INT)a[k]; l1[k] = (REF_INT)a[nn + k]; }
     st = ref_sort_same((REF_INT)nn, l0, l1, &same);
     printf("%s %d\n", h_status(st), same ? 1 : 0);
